@@ -162,6 +162,11 @@ def run_harnesses(harnesses, repo, work, root, log, jobs=12, timeout=3000, extra
         r["cmd"] = "cargo kani -Z function-contracts -Z stubbing --harness <h> (kani/src, path dep on /repo, --cfg substrate_fixed_verif)"
         if timed_out and r["status"] in ("MISSING", "UNKNOWN"):
             r["status"] = "TIMEOUT"
+        if r["status"] == "UNWIND" and s.get("unwind_is_violation"):
+            # the harness's unwind bound is the property's iteration bound + 2
+            r["status"] = "FAILED"
+            r["failed_classes"] = ["functional"]
+            r["summary"] = "unwinding assertion failed: a loop runs more often than the bound the property allows. " + r.get("summary", "")
         if r["status"] == "SUCCESS" and not r.get("cover_ok", True):
             r["status"] = "COVER-UNSAT"
         res.append(r)
